@@ -291,6 +291,49 @@ fn range_item_outlives_h<T: 'static>(splice: bool) {
 }
 
 
+/// History "an owning element handle is swapped out of a mutable element reference".  Safe code:
+/// `ElementMut: DerefMut<Target = Element>` hands out `&mut Element`, and `Element` is the *owning* handle type
+/// (its drop destroys the element), so `mem::replace(&mut *v0.get_mut(i).unwrap(), owned)` - with `owned` any
+/// element drained from another vector - returns an owning handle for an element `v0` still shows.
+/// On the pinned tree this FAILS (known finding D16, known_findings.json).
+fn element_mut_replace_h<T: 'static>() {
+    ghost_init();
+    let len = any_narrow();
+    let cap = any_narrow();
+    let len_b = any_narrow();
+    let cap_b = any_narrow();
+    kani::assume(len <= cap && cap <= CAPMAX / 2 && len_b <= cap_b && cap_b <= CAPMAX / 2);
+    kani::assume(len > 0 && len_b > 0);
+    let esz = size_of::<T>();
+    let mut v = unsafe { mk_vec::<dyn None, T>(0, len, cap, false, true) };
+    let mut o = unsafe { mk_vec::<dyn None, T>(1, len_b, cap_b, false, true) };
+    reg(&v, 0);
+    reg(&o, 1);
+    let i = any_narrow();
+    kani::assume(i < len);
+    {
+        let mut d = o.drain(len_b - 1..len_b);
+        let owned = d.next();
+        kani::assert(owned.is_some(), "a non-empty range yields its first element");
+        if let (Some(owned), Some(mut em)) = (owned, v.get_mut(i)) {
+            let stolen = core::mem::replace(&mut *em, owned);
+            let a = off(stolen.as_bytes_ptr());
+            if esz != 0 {
+                if let Some(a) = a {
+                    kani::assert(!(base(0) <= a && a < base(0) + cur_len(0) * esz),
+                        "an owning element handle obtained by the caller does not address an element still visible in a vector (dropping or consuming it would destroy / move out a visible element)");
+                }
+            }
+            core::mem::forget(stolen);
+        }
+        core::mem::forget(d);
+    }
+    kani::cover!(true, "REACHED");
+    core::mem::forget(v);
+    core::mem::forget(o);
+}
+
+
 /// the public typed API (`AnyVecTyped::{drain,splice}`): range conversion + adapter, one item taken
 /// from the front (returned by value as T), then the adapter is dropped
 fn typed_api_h<T: 'static>(splice: bool, mk: fn() -> T) {
